@@ -366,6 +366,7 @@ func (g *GoBackNConn) sendPacket(ctx context.Context, msg Message,
 		return fmt.Errorf("serialize error: %s", err)
 	}
 
+	vtraceTx(g.timeoutManager, b)
 	err = g.cfg.sendToStream(ctx, b)
 	if err != nil {
 		return fmt.Errorf("error calling sendToStream: %s", err)
